@@ -1,0 +1,287 @@
+//go:build verif
+
+// Package verifhook holds the durable-write failpoints used by the /verif checks.
+// This is the armed implementation (build tag "verif"): it counts durable writes and,
+// when armed, crashes (os.Exit or panic), injects an error, or cuts a file write short
+// immediately before the k-th matching write.
+package verifhook
+
+import (
+	"bytes"
+	"fmt"
+	"os"
+	"strconv"
+	"strings"
+	"sync"
+)
+
+const Enabled = true
+
+type Mode int
+
+const (
+	ModeOff   Mode = iota
+	ModeExit       // os.Exit(137) before the write
+	ModePanic      // panic(Crash{}) before the write (in-process crash; the harness recovers)
+	ModeError      // Err() returns an error at the site (sites that can fail only)
+	ModeCut        // Cut() truncates the write to CutBytes bytes, then Die() exits/panics
+)
+
+// Crash is the sentinel panic value of ModePanic.
+type Crash struct {
+	Site string
+	N    int64
+}
+
+func (c Crash) Error() string {
+	return fmt.Sprintf("verifhook crash before write #%d at %s", c.N, c.Site)
+}
+
+type Config struct {
+	Mode Mode
+	// K: fire at the K-th (1-based) counted write. Counting starts at arming time, or — when
+	// StartSite/StartKey are set — at the first write matching them (that write is number 1).
+	K int64
+	// Sites: only writes whose site has one of these prefixes are counted (empty = all).
+	Sites []string
+	// StartSite / StartKey: begin counting at the first write whose site has prefix StartSite
+	// and whose key contains StartKey.
+	StartSite string
+	StartKey  []byte
+	// CutBytes: for ModeCut, number of bytes of the write that still reach the file.
+	CutBytes int
+	// CutExit: ModeCut dies by os.Exit(137) instead of a panic.
+	CutExit bool
+	// Log: append one line per counted write to this file (site, key prefix) — for counting runs.
+	Log string
+}
+
+var (
+	mu       sync.Mutex
+	cfg      Config
+	started  bool
+	count    int64 // counted writes since arming/start
+	total    int64 // all writes seen since process start
+	fired    bool
+	firedAt  string
+	trace    []string
+	traceOn  bool
+	dieExit  bool
+	pendingD bool
+)
+
+func init() {
+	// Child processes are armed through the environment:
+	// VERIF_FP="mode=exit;k=12;sites=godb,ethdb;startsite=godb.batch;startkey=H:3;cut=5;log=/path"
+	v := os.Getenv("VERIF_FP")
+	if v == "" {
+		return
+	}
+	var c Config
+	for _, kv := range strings.Split(v, ";") {
+		p := strings.SplitN(kv, "=", 2)
+		if len(p) != 2 {
+			continue
+		}
+		switch p[0] {
+		case "mode":
+			switch p[1] {
+			case "exit":
+				c.Mode = ModeExit
+			case "panic":
+				c.Mode = ModePanic
+			case "error":
+				c.Mode = ModeError
+			case "cut":
+				c.Mode = ModeCut
+				c.CutExit = true
+			case "count":
+				c.Mode = ModeOff
+			}
+		case "k":
+			c.K, _ = strconv.ParseInt(p[1], 10, 64)
+		case "sites":
+			c.Sites = strings.Split(p[1], ",")
+		case "startsite":
+			c.StartSite = p[1]
+		case "startkey":
+			c.StartKey = []byte(p[1])
+		case "cut":
+			c.CutBytes, _ = strconv.Atoi(p[1])
+		case "log":
+			c.Log = p[1]
+		}
+	}
+	Arm(c)
+}
+
+// Arm installs a failpoint configuration and resets the counter.
+func Arm(c Config) {
+	mu.Lock()
+	defer mu.Unlock()
+	cfg = c
+	count = 0
+	fired = false
+	firedAt = ""
+	started = c.StartSite == "" && len(c.StartKey) == 0
+}
+
+// Disarm removes the failpoint (counting of the total continues).
+func Disarm() {
+	mu.Lock()
+	defer mu.Unlock()
+	cfg = Config{}
+	started = true
+}
+
+// Count returns the number of counted writes since Arm.
+func Count() int64 { mu.Lock(); defer mu.Unlock(); return count }
+
+// Total returns the number of writes seen since process start.
+func Total() int64 { mu.Lock(); defer mu.Unlock(); return total }
+
+// Fired reports whether the armed failpoint has fired, and where.
+func Fired() (bool, string) { mu.Lock(); defer mu.Unlock(); return fired, firedAt }
+
+// Trace switches recording of counted write sites on/off and returns what was recorded.
+func Trace(on bool) []string {
+	mu.Lock()
+	defer mu.Unlock()
+	t := trace
+	trace = nil
+	traceOn = on
+	return t
+}
+
+func match(site string, key []byte) bool {
+	if !started {
+		if strings.HasPrefix(site, cfg.StartSite) && bytes.Contains(key, cfg.StartKey) {
+			started = true
+		} else {
+			return false
+		}
+	}
+	if len(cfg.Sites) == 0 {
+		return true
+	}
+	for _, s := range cfg.Sites {
+		if strings.HasPrefix(site, s) {
+			return true
+		}
+	}
+	return false
+}
+
+// step counts one write and tells whether the failpoint fires on it.
+func step(site string, key []byte) (fire bool, n int64) {
+	total++
+	if !match(site, key) {
+		return false, 0
+	}
+	count++
+	if traceOn && len(trace) < 100000 {
+		trace = append(trace, site+" "+keyStr(key))
+	}
+	if cfg.Log != "" {
+		if f, err := os.OpenFile(cfg.Log, os.O_APPEND|os.O_CREATE|os.O_WRONLY, 0644); err == nil {
+			fmt.Fprintf(f, "%d %s %s\n", count, site, keyStr(key))
+			f.Close()
+		}
+	}
+	if cfg.Mode == ModeOff || fired || cfg.K <= 0 || count != cfg.K {
+		return false, count
+	}
+	return true, count
+}
+
+func keyStr(key []byte) string {
+	if len(key) > 24 {
+		key = key[:24]
+	}
+	return strconv.QuoteToASCII(string(key))
+}
+
+func Write(site string, key []byte) {
+	mu.Lock()
+	fire, n := step(site, key)
+	if !fire || (cfg.Mode != ModeExit && cfg.Mode != ModePanic) {
+		mu.Unlock()
+		return
+	}
+	fired = true
+	firedAt = site
+	mode := cfg.Mode
+	mu.Unlock()
+	if mode == ModeExit {
+		fmt.Fprintf(os.Stderr, "VERIFHOOK-EXIT before write #%d at %s key=%s\n", n, site, keyStr(key))
+		os.Exit(137)
+	}
+	panic(Crash{Site: site, N: n})
+}
+
+// Err is Write for sites that can report failure: in ModeError it returns an injected error
+// instead of crashing; in the crash modes it behaves like Write.
+func Err(site string, key []byte) error {
+	mu.Lock()
+	fire, n := step(site, key)
+	if !fire || cfg.Mode == ModeCut {
+		mu.Unlock()
+		return nil
+	}
+	fired = true
+	firedAt = site
+	mode := cfg.Mode
+	mu.Unlock()
+	switch mode {
+	case ModeError:
+		return fmt.Errorf("verifhook: injected write error at %s (#%d)", site, n)
+	case ModeExit:
+		fmt.Fprintf(os.Stderr, "VERIFHOOK-EXIT before write #%d at %s key=%s\n", n, site, keyStr(key))
+		os.Exit(137)
+	case ModePanic:
+		panic(Crash{Site: site, N: n})
+	}
+	return nil
+}
+
+// Cut: file writers call it before writing b. In ModeCut, on the K-th counted write it returns
+// the prefix that may still reach the file and true; the caller writes that prefix and calls
+// Die(). In the other modes it behaves like Write and returns (nil,false).
+func Cut(site string, b []byte) ([]byte, bool) {
+	mu.Lock()
+	if cfg.Mode != ModeCut {
+		mu.Unlock()
+		Write(site, b)
+		return nil, false
+	}
+	fire, _ := step(site, b)
+	if !fire {
+		mu.Unlock()
+		return nil, false
+	}
+	fired = true
+	firedAt = site
+	n := cfg.CutBytes
+	if n > len(b) {
+		n = len(b)
+	}
+	if n < 0 {
+		n = 0
+	}
+	dieExit = cfg.CutExit
+	mu.Unlock()
+	return b[:n], true
+}
+
+func Die() {
+	mu.Lock()
+	ex := dieExit
+	site := firedAt
+	n := count
+	mu.Unlock()
+	if ex {
+		fmt.Fprintf(os.Stderr, "VERIFHOOK-EXIT after cut write #%d at %s\n", n, site)
+		os.Exit(137)
+	}
+	panic(Crash{Site: site, N: n})
+}
